@@ -27,7 +27,7 @@ import (
 // Compile: for every result element that is no longer an output wire, a fresh
 // output wire fed by an identity gate.
 func C05outputs(p *load.Program, run *report.Run) {
-	run.Rule("stream-constant-outputs", "if a circuit builder reachable from circuitGenerators can store the constant zero/one wire into its result parameter, Program.Stream routes every replaced result element to a fresh output wire (Output() test, identity gate, store back) between the generator call and Compile")
+	run.Rule("stream-constant-outputs", "if a circuit builder reachable from circuitGenerators can store the constant zero/one wire into its result parameter, Program.Stream routes every replaced result element to a fresh output wire (Output() test, identity gate, store back) between the generator call and Compile, and circuits.NewCompiler keeps the very slice it was given as its output wires, so the store back reaches the compiler")
 	compiledOutputs(p, run, "stream-constant-outputs", "compiler/ssa", "Program", "Stream", true)
 }
 
@@ -268,6 +268,10 @@ func compiledOutputs(p *load.Program, run *report.Run, rule, relPkg, recv, fname
 		}
 		return true
 	})
+	if rewired && !newCompilerSharesOutputs(p) {
+		run.Violate(rule, key, p.Rel(genCall.Pos()), "the fresh output wires are stored back into the caller's result slice, but circuits.NewCompiler keeps its own copy of the output wires: the compiler still lists the replaced constant wires as outputs and the fresh wires never get an id", nil)
+		return
+	}
 	if rewired {
 		run.OK(rule, key, p.Rel(genCall.Pos()), fmt.Sprintf("%d builders can return constant result wires (%v …); replaced results are routed to fresh output wires before Compile", len(names), names[:min(3, len(names))]))
 	} else {
@@ -276,6 +280,42 @@ func compiledOutputs(p *load.Program, run *report.Run, rule, relPkg, recv, fname
 	if viaTable {
 		run.Floor("stream-generators", 20)
 	}
+}
+
+// newCompilerSharesOutputs: circuits.NewCompiler stores its output-wire parameter itself (not a
+// copy) in Compiler.OutputWires, so a store through the caller's slice is seen by the compiler.
+func newCompilerSharesOutputs(p *load.Program) bool {
+	pkg, fd := dispatch.FindFunc(p, "compiler/circuits", "", "NewCompiler")
+	if fd == nil {
+		return false
+	}
+	params := map[types.Object]bool{}
+	for _, f := range fd.Type.Params.List {
+		for _, n := range f.Names {
+			params[pkg.TypesInfo.ObjectOf(n)] = true
+		}
+	}
+	shares := false
+	ast.Inspect(fd.Body, func(n ast.Node) bool {
+		switch t := n.(type) {
+		case *ast.KeyValueExpr:
+			if k, ok := t.Key.(*ast.Ident); ok && k.Name == "OutputWires" {
+				if v, ok := ast.Unparen(t.Value).(*ast.Ident); ok && params[pkg.TypesInfo.ObjectOf(v)] {
+					shares = true
+				}
+			}
+		case *ast.AssignStmt:
+			for i, l := range t.Lhs {
+				if sel, ok := l.(*ast.SelectorExpr); ok && sel.Sel.Name == "OutputWires" && i < len(t.Rhs) {
+					if v, ok := ast.Unparen(t.Rhs[i]).(*ast.Ident); ok && params[pkg.TypesInfo.ObjectOf(v)] {
+						shares = true
+					}
+				}
+			}
+		}
+		return true
+	})
+	return shares
 }
 
 func lintRoot(e ast.Expr) *ast.Ident {
